@@ -48,6 +48,7 @@ type arrival struct {
 }
 
 type thread struct {
+	last   int // index of the trace event this goroutine was last released for
 	lib    bool
 	id     int
 	grant  chan struct{}
@@ -95,7 +96,7 @@ func self() *thread {
 func register(id int) *thread {
 	mu.Lock()
 	defer mu.Unlock()
-	t := &thread{id: id, grant: make(chan struct{}, 1)}
+	t := &thread{id: id, grant: make(chan struct{}, 1), last: -1}
 	threads[id] = t
 	gids[gid()] = id
 	return t
@@ -116,6 +117,24 @@ func Point(pos, kind string) {
 		return
 	}
 	mu.Unlock()
+	if kind == "load" || kind == "store" {
+		// a point before a plain access: gate it only if it is this goroutine's next event in the trace
+		next := -1
+		mu.Lock()
+		from := t.last + 1
+		mu.Unlock()
+		for i := from; i < len(trace); i++ {
+			if trace[i].T == t.id {
+				next = i
+				break
+			}
+		}
+		if next >= 0 && (trace[next].Pos != pos || trace[next].Op != kind) {
+			return
+		}
+		// next < 0: the trace has nothing more for this goroutine - it parks right before the plain access
+		// (that is where the model left it) and is released together with everything else at the end
+	}
 	arrivals <- arrival{tid: t.id, pos: pos, kind: kind}
 	<-t.grant
 }
@@ -307,8 +326,14 @@ func Run(file string, entry func()) {
 		return
 	}
 	json.Unmarshal(b, &cf)
+	points := map[string]bool{}
+	if pb, err := os.ReadFile(os.Getenv("VERIF_POINTS")); err == nil {
+		for _, l := range strings.Split(string(pb), "\n") {
+			points[strings.TrimSpace(l)] = true
+		}
+	}
 	for _, s := range cf.Cex.Trace {
-		if gated(s.Op) {
+		if gated(s.Op) || points[s.Pos+" "+s.Op] {
 			trace = append(trace, s)
 		}
 	}
@@ -379,6 +404,7 @@ func Run(file string, entry func()) {
 		mu.Lock()
 		t := threads[ev.T]
 		t.at = nil
+		t.last = cursor
 		if ev.Op == "go" {
 			curSpawn = ev.Spawn
 		}
